@@ -76,6 +76,9 @@ func genWeekends() (content []byte, missing bool) {
 		return Pick(rnd, [][]byte{[]byte("9"), []byte("x\n"), []byte("\n3"), []byte(" 5 "), []byte("/"), {0xff}, {0x80, '1'}, []byte("-1"), []byte("10")}), false
 	case 3:
 		return rnd.Bytes(1 + rnd.Intn(4)), false
+	case 4:
+		// digits outside 0..6: the weekday is the digit modulo 7
+		return Pick(rnd, [][]byte{[]byte("7"), []byte("8"), []byte("9"), []byte("7\n"), []byte("8\n"), []byte("9\n"), []byte(" 9"), []byte("8 ")}), false
 	default:
 		return []byte(fmt.Sprintf("%d\n", rnd.Intn(7))), false
 	}
@@ -193,7 +196,18 @@ func caseRotate() {
 		delta = time.Duration(rnd.Int63n(int64(9 * 24 * time.Hour)))
 	}
 	now = now0.Add(delta)
+	// the setting may change (or disappear) while the process is alive: the
+	// next file is opened with the setting found THEN
+	switch rnd.Intn(4) {
+	case 0:
+		os.WriteFile(filepath.Join(telemetry.Default.LocalDir(), "weekends"), []byte(fmt.Sprintf("%d\n", rnd.Intn(7))), 0666)
+		out.Note("rotate-setting-changed")
+	case 1:
+		os.Remove(filepath.Join(telemetry.Default.LocalDir(), "weekends"))
+		out.Note("rotate-setting-removed")
+	}
 	f.Rotate1()
+	after1 := readWeekends()
 	b1, e1 := f.Span()
 	n2 := 1 + rnd.Intn(5)
 	c.Add(int64(n2))
@@ -204,7 +218,7 @@ func caseRotate() {
 		keys = append(keys, k)
 	}
 	sort.Strings(keys)
-	fields := []string{"rotate", I(now0.Unix()), I(now.Unix()), I(int64(wd)), I(int64(n1)), I(int64(n2)),
+	fields := []string{"rotate", I(now0.Unix()), I(now.Unix()), I(int64(wd)), H(after1), I(int64(n1)), I(int64(n2)),
 		I(b0.Unix()), I(e0.Unix()), I(b1.Unix()), I(e1.Unix()), I(int64(len(keys)))}
 	for _, k := range keys {
 		p := strings.SplitN(k, "|", 2)
@@ -326,6 +340,11 @@ func caseUpload() {
 		start = e.Add(-time.Second)
 	default:
 		start = e.Add(time.Duration(rnd.Int63n(int64(20*24*time.Hour))) - 10*24*time.Hour)
+	}
+	// the same instant on another calendar: the week is named by the UTC date of the recorded end
+	if off := Pick(rnd, []int{0, 0, -3, -8, -12, 9, 14, 5}); off != 0 {
+		start = start.In(time.FixedZone("z", off*3600+Pick(rnd, []int{0, 1800})))
+		out.Note("upload-start-in-other-zone")
 	}
 	u := upload.VerifNewUploader(dir, "http://127.0.0.1:1/", start, nil, "v0.0.0-0", nil)
 	u.Run()
